@@ -9,7 +9,10 @@ import (
 	"os"
 	"strconv"
 
+	"strings"
+
 	"verif/checks"
+	"verif/gen"
 	"verif/tv"
 )
 
@@ -26,6 +29,27 @@ func main() {
 		fs.Parse(os.Args[3:])
 		seed, _ := strconv.Atoi(os.Getenv("VERIF_SEED"))
 		os.Exit(checks.Run(id, *tier, seed))
+	case "tvshow": // vcheck tvshow <subset|lookalike> <case id substring>: print source and goose output of matching cases
+		d, err := tv.NewDriver(checks.RepoRoot)
+		if err != nil {
+			fmt.Println(err)
+			os.Exit(2)
+		}
+		defer d.Close()
+		pkgs := gen.Subset(1)
+		if os.Args[2] == "lookalike" {
+			pkgs = gen.Lookalikes(1)
+		}
+		for _, p := range pkgs {
+			for _, q := range p.Singletons() {
+				if !strings.Contains(q.Cases[0].ID, os.Args[3]) {
+					continue
+				}
+				d.WritePackage(q)
+				tr := d.Translate(q)
+				fmt.Printf("=== %s (exit %d)\n%s\n--- stderr\n%s\n--- output\n%s\n", q.Cases[0].ID, tr.Exit, q.Cases[0].Src, tr.Stderr, tr.V)
+			}
+		}
 	case "tvcal":
 		d, err := tv.NewDriver(checks.RepoRoot)
 		if err != nil {
